@@ -39,9 +39,9 @@ FormulaLen(W) == SumSeq([i \in 1..Len(W) |-> FormulaCount(W, i)])
 \* The code's builder, transliterated (tars/selector/selector.go BuildStaticWeightList) for positive
 \* weights.  eff_i = floor(W_i*R/Wmax); indexes with eff_i = 0 come first, once each, in index order;
 \* then smooth weighted round robin over the others: `total` rounds, each round picks the largest
-\* current weight (ties: the greater String(), i.e. the greater ord), emits it, lowers it by total;
-\* every entry then grows by its eff.  Result: sequence of 1-based indexes into W.
-\* one round of the smooth weighted round robin per recursion; eff/total/ord are passed as values
+\* current weight (ties: the greater Endpoint.String(), i.e. the greater ord), emits it and lowers it by
+\* total; every entry then grows by its eff.  Result: sequence of 1-based indexes into W.
+\* one round per recursion; eff/total/ord are passed as values (TLC then evaluates them once)
 RECURSIVE SwrrRounds(_, _, _, _, _, _)
 SwrrRounds(k, cur, acc, eff, total, ord) ==
   IF k = 0 THEN acc
